@@ -35,7 +35,7 @@ def run(ctx):
     for e in events:
         kinds[e["event"]] = kinds.get(e["event"], 0) + 1
     ctx.extra["event_kinds"] = kinds
-    fails = ctx.trace_judge("node", "StateTrace.tla", "Trace_State.cfg", trace, timeout=3000)
+    fails = ctx.trace_judge_parts("node", "StateTrace.tla", "Trace_State.cfg", events, max_events=6000, timeout=3000, workers=4)
     ctx.traces_validated += res.get("traces", 0)
     for f in fails:
         ev = events[f["line"] - 1]
